@@ -567,7 +567,8 @@ func (sf *file) GetPassthroughFd(mergeBufferSize int64, mergeWorkerCount int) (u
 	// cache.PassThrough() is necessary to take over files
 	r, err := sf.gr.cache.Get(id, cache.PassThrough())
 	if err != nil {
-		if hasLargeChunk {
+		if hasLargeChunk || mergeWorkerCount <= 0 {
+			// Without a worker nothing would fill the merge buffers (the file would be all zeros): merge sequentially.
 			if err := sf.prefetchEntireFileSequential(id); err != nil {
 				return 0, nil, err
 			}
